@@ -381,6 +381,14 @@ func visitInstr(fr *frame, instr ssa.Instruction) continuation {
 	case *ssa.MakeSlice:
 		c := fr.concInt(fr.get(instr.Cap))
 		l := fr.concInt(fr.get(instr.Len))
+		if mc := int64(i.st.w.eng.Opts.MakeCap); mc > 0 && c > mc {
+			// a huge scratch buffer (stated in the harness config): executed at the capped size
+			i.st.noteStub(fmt.Sprintf("make([]T, %d) executed as make([]T, %d) (make_cap)", c, mc))
+			c = mc
+			if l > c {
+				l = c
+			}
+		}
 		if l < 0 || c < l || c > 1<<24 {
 			i.rtPanic("makeslice: len out of range")
 		}
